@@ -14,6 +14,8 @@ WHAT IS TRANSLATED (every run, from the current source):
   quara/objects/mprocess.py    MProcess.is_eq_constraint_satisfied, is_ineq_constraint_satisfied, is_sum_tp, is_cp,
                                the basis-flag guard and the physicality guard of MProcess.__init__
   quara/utils/matrix_util.py   is_hermitian, is_positive_semidefinite
+  quara/settings.py            Settings.get_atol, Settings.set_atol (`return cls.<attr>`; `if type(atol) != float: raise TypeError(..)` then
+                               `cls.<attr> = atol`) and the class-level float default -> the little state language [sstmt] of C01_Glue.v
 
 WHAT "GLUE" MEANS.  Tolerance resolution (`atol = Settings.get_atol() if atol is None else atol`), which tolerance is handed to
 which callee (positional / keyword / omitted / literal 0.0 / numpy default), `and` / `or` / `not` / `== False` / `is True`,
@@ -419,6 +421,53 @@ class Translator:
         for n in ("is_eq_constraint_satisfied", "is_ineq_constraint_satisfied", "is_sum_tp", "is_cp"):
             self.function(mp, "MProcess", n, "gen_MProcess_" + n)
         self.ctor_guards(mp, "MProcess", "gen_MProcess_init_guards")
+        self.settings()
+
+    def settings(self):
+        """quara/settings.py: Settings.get_atol / Settings.set_atol (classmethods over one name-mangled class attribute)"""
+        tree = self.load("quara/settings.py")
+        out = []
+        for name in ("get_atol", "set_atol"):
+            f = self.find(tree, "Settings", name)
+            if [src(d) for d in f.decorator_list] != ["classmethod"]:
+                raise Unsupported("Settings.%s is not a plain classmethod" % name)
+            body = [b for b in f.body if not (isinstance(b, ast.Expr) and isinstance(b.value, ast.Constant) and isinstance(b.value.value, str))]
+            args = [a.arg for a in f.args.args]
+            if name == "get_atol":
+                if args != ["cls"] or len(body) != 1 or not isinstance(body[0], ast.Return) or not isinstance(body[0].value, ast.Attribute) \
+                        or src(body[0].value.value) != "cls":
+                    raise Unsupported("Settings.get_atol is not `return cls.<attr>`")
+                out.append(("gen_Settings_get_atol", 'SsRet "%s"' % body[0].value.attr))
+            else:
+                if args != ["cls", "atol"] or f.args.defaults:
+                    raise Unsupported("Settings.set_atol signature")
+                term = None
+                st = body[-1] if body else None
+                if not (isinstance(st, ast.Assign) and len(st.targets) == 1 and isinstance(st.targets[0], ast.Attribute)
+                        and src(st.targets[0].value) == "cls" and isinstance(st.value, ast.Name) and st.value.id == "atol"):
+                    raise Unsupported("Settings.set_atol does not end with `cls.<attr> = atol`")
+                term = 'SsStore "%s" "atol"' % st.targets[0].attr
+                for g in reversed(body[:-1]):
+                    if (isinstance(g, ast.If) and not g.orelse and len(g.body) == 1 and isinstance(g.body[0], ast.Raise)
+                            and src(g.test) == "type(atol) != float" and src(g.body[0].exc.func) == "TypeError"):
+                        term = 'SsRequireFloat "atol" (%s)' % term
+                    else:
+                        raise Unsupported("Settings.set_atol: statement not in the subset: %s" % src(g).splitlines()[0])
+                out.append(("gen_Settings_set_atol", term))
+        # the default: class-level  __first_default_atol = <float literal> ; __atol = __first_default_atol
+        cls = [n for n in tree.body if isinstance(n, ast.ClassDef) and n.name == "Settings"][0]
+        consts = {}
+        for n in cls.body:
+            if isinstance(n, ast.Assign) and len(n.targets) == 1 and isinstance(n.targets[0], ast.Name):
+                v = n.value
+                if isinstance(v, ast.Name) and v.id in consts:
+                    consts[n.targets[0].id] = consts[v.id]
+                elif isinstance(v, ast.Constant) and isinstance(v.value, float):
+                    consts[n.targets[0].id] = repr(v.value)
+                else:
+                    raise Unsupported("Settings: class attribute %s is not a float literal / alias" % n.targets[0].id)
+        self.settings_defs = out
+        self.settings_consts = consts
 
     def emit(self):
         # canonical numbering: position in the SORTED table, so that merely reordering operands / functions does not renumber
@@ -439,6 +488,11 @@ class Translator:
             out.append("Definition %s_params : list string := [%s]." % (coq, "; ".join('"%s"' % p for p in params)))
             out.append("Definition %s : stmt := %s." % (coq, body))
             out.append("")
+        for coq, term in self.settings_defs:
+            out.append("Definition %s : sstmt := %s." % (coq, term))
+        out.append("Definition gen_Settings_class_attrs : list (string * string) := [%s]."
+                   % "; ".join('(%s, %s)' % (coq_str(k), coq_str(v)) for k, v in sorted(self.settings_consts.items())))
+        out.append("")
         return "\n".join(out)
 
 
